@@ -428,6 +428,8 @@ class Vcf(Format):
         keys = [d for d in defs if rng.random() < 0.6]
         if not keys:
             keys = [defs[0]]
+        if rng.random() < 0.08:
+            keys = [rng.choice([d for d in defs if d[2] == "Flag"] or defs[:1])]      # the whole INFO field is one short flag (shorter than most keys)
         for k, num, typ in keys:
             if typ == "Flag":
                 info[k] = True
